@@ -130,6 +130,36 @@ def structured(acc: Acc, cc: CmdCtx, others):
             judge(acc, cc, F[:i] + b"\x5a" + F[i:], "insert:%d" % i)
     for o in others:
         judge(acc, cc, o.F, "foreign:%s-%s" % (o.framing, o.kind if isinstance(o.kind, str) else "fixed"))
+    # "resealed" neighbourhood: one structural edit (insert / delete / substitute a byte) and the checksum (RTU: CRC-16 over
+    # everything after the AA55 marker; AA55: additive sum) recomputed so that the frame gets past the checksum gate - also
+    # for Modbus/TCP, with the MBAP length adjusted or not.  Inserted values come from a dictionary of bytes that mean
+    # something in the exchange (byte counts, register counts, function codes, marker bytes).
+    def reseal(x):
+        if len(x) < 6:
+            return x
+        if cc.framing == "rtu":
+            return x[:-2] + rw.crc_bytes(x[2:-2])
+        if cc.framing == "aa55":
+            return x[:-2] + rw.u16(rw.sum16(x[:-2]))
+        return x
+    nbytes = len(cc.arg) if isinstance(cc.arg, (bytes, bytearray)) else (2 * cc.arg if cc.kind == "read" else 2)
+    vocab = sorted({0, 1, 2, 3, 6, 0x10, 0x83, 0x86, 0x90, 0xAA, 0x55, 0xF7, 0xFF, nbytes & 0xFF, (nbytes // 2) & 0xFF, (nbytes + 1) & 0xFF, len(F) & 0xFF}
+                   | set(F[:12]))
+    body_end = len(F) - (2 if cc.framing in ("rtu", "aa55") else 0)
+    positions = sorted(set(range(0, min(body_end, 14))) | {body_end - 1, body_end})
+    for i in positions:
+        for v in vocab:
+            x = F[:i] + bytes((v,)) + F[i:]
+            judge(acc, cc, reseal(x), "sealed-insert:%d" % i, counted=True)
+            if cc.framing == "tcp" and i >= 6:
+                judge(acc, cc, x[:4] + rw.u16((rw.be16(x, 4) + 1) & 0xFFFF) + x[6:], "sealed-insert-mbap:%d" % i, counted=True)
+            if i < body_end and v != F[i]:
+                judge(acc, cc, reseal(F[:i] + bytes((v,)) + F[i + 1:]), "sealed-subst:%d" % i, counted=True)
+        if i < body_end:
+            x = F[:i] + F[i + 1:]
+            judge(acc, cc, reseal(x), "sealed-delete:%d" % i, counted=True)
+            if cc.framing == "tcp" and i >= 6:
+                judge(acc, cc, x[:4] + rw.u16((rw.be16(x, 4) - 1) & 0xFFFF) + x[6:], "sealed-delete-mbap:%d" % i, counted=True)
     if cc.kind == "read":
         # well-formed, self-consistent read answers of every other payload length 0..255 (odd ones included): several fields
         # deviate together (byte count, MBAP/AA55 length, payload, checksum), which no single-byte mutation reaches
